@@ -53,5 +53,4 @@ br_i15_decode(uint16_t *x, const void *src, size_t len)
 		x[v ++] = acc;
 	}
 	x[0] = br_i15_bit_length(x + 1, v - 1);
-	BR_VERIF_PUBLIC_MEM(x, sizeof *x);
 }
